@@ -341,8 +341,52 @@ End Replay.
 (** [CSched sh univ evs rfinal]: one executed schedule of the real queue with a fake sender
     ([sh] = SupportsHave); [rfinal] = the sent messages replayed by the harness onto a real
     wantlist.Wantlist.  The real queue is idle at the end of every schedule. *)
+(** ---------- wantlist.Wantlist on its own ---------- *)
+(** The contract of Wantlist is that of a map: the memoised [cached] slice behind Entries()
+    must be invisible.  Every observable result of an op sequence on the real type is compared
+    with the association list; a difference is a failure of that contract. *)
+Inductive wop := WAdd (c p t : Z) | WRemove (c : Z) | WRemType (c t : Z) | WEntries | WGet (c : Z) | WHas (c : Z) | WLen.
+Inductive wob := OBool (b : bool) | OUnit | OEntries (l : wl) | OGet (o : option went) | OLen (n : Z).
+
+Definition wl_add_ok (c t : Z) (l : wl) : bool :=
+  match zget c l with Some (_, t0) => negb ((t0 =? TBlock) || (t =? THave)) | None => true end.
+Fixpoint sorted_desc (l : wl) : bool :=
+  match l with
+  | x :: ((y :: _) as r) => (fst (snd y) <=? fst (snd x)) && sorted_desc r
+  | _ => true
+  end.
+Fixpoint nodup_keys (l : wl) : bool :=
+  match l with [] => true | (k, _) :: r => negb (zhas k r) && nodup_keys r end.
+Definition wl_same (a b : wl) : bool :=
+  (length a =? length b)%nat && nodup_keys a && nodup_keys b &&
+  forallb (fun e : Z * went => match zget (fst e) b with
+                               | Some v => (fst (snd e) =? fst v) && (snd (snd e) =? snd v) | None => false end) a.
+
+Definition wstep (l : wl) (o : wop) (b : wob) : wl * bool :=
+  match o, b with
+  | WAdd c p t, OBool r => (wl_add c p t l, Bool.eqb r (wl_add_ok c t l))
+  | WRemove c, OUnit => (zdel c l, true)
+  | WRemType c t, OBool r => (fst (wl_remtype c t l), Bool.eqb r (snd (wl_remtype c t l)))
+  | WEntries, OEntries es => (l, wl_same l es && sorted_desc es)
+  | WGet c, OGet o =>
+      (l, match zget c l, o with
+          | Some v, Some v' => (fst v =? fst v') && (snd v =? snd v')
+          | None, None => true
+          | _, _ => false
+          end)
+  | WHas c, OBool r => (l, Bool.eqb r (zhas c l))
+  | WLen, OLen n => (l, n =? Z.of_nat (length l))
+  | _, _ => (l, false)
+  end.
+Fixpoint wrun (l : wl) (ops : list (wop * wob)) : bool :=
+  match ops with
+  | [] => true
+  | (o, b) :: r => let (l', ok) := wstep l o b in ok && wrun l' r
+  end.
+
 Inductive case :=
-| CSched (sh : bool) (univ : list Z) (evs : list (ev * dump)) (rfinal : wl).
+| CSched (sh : bool) (univ : list Z) (evs : list (ev * dump)) (rfinal : wl)
+| CWl (ops : list (wop * wob)).
 
 Definition types_eqb (a b : wl) : bool :=
   (length a =? length b)%nat &&
@@ -395,4 +439,5 @@ Definition check_case (c : case) : verdict :=
             else if f_forget fl && f_merge fl && cured fixed_flags then VKnown 1
             else VSpecFail
       end
+  | CWl ops => if wrun [] ops then VOk else VSpecFail
   end.
